@@ -15,26 +15,70 @@ fn enc64(x: u64) -> [u16; 4] {
 }
 /// Callback probe: logs the callback id and a hash of its argument's Debug rendering.
 pub fn z<T: Debug + ?Sized>(id: u16, v: &T) {
+    if crate::alloc::armed() {
+        return; // allocation measurement in progress: probes stay silent (and allocation-free)
+    }
     let s = format!("{:?}", v);
     log::log(K::Call, id, &enc64(fnv(s.as_bytes())));
 }
 /// Callback probe without an observable argument.
 pub fn z0(id: u16) {
+    if crate::alloc::armed() {
+        return;
+    }
     log::log(K::Call, id, &[]);
 }
 /// Capture marker inside a block operand.
 pub fn zc(id: u16) {
+    if crate::alloc::armed() {
+        return;
+    }
     log::log(K::Cap, id, &[]);
 }
 /// Operand-expression evaluation marker for non-closure operands: returns its argument.
 pub fn ze<T>(id: u16, v: T) -> T {
-    log::log(K::Eval, id, &[]);
+    elog(id);
     v
+}
+fn elog(id: u16) {
+    if !crate::alloc::armed() {
+        log::log(K::Eval, id, &[]);
+    }
+}
+pub use crate::alloc::Bag;
+/// Allocation-free iterator source (shape from the plan).
+pub struct ArrIter {
+    data: [u32; 8],
+    pos: usize,
+    len: usize,
+}
+impl Iterator for ArrIter {
+    type Item = u32;
+    fn next(&mut self) -> Option<u32> {
+        if self.pos < self.len {
+            self.pos += 1;
+            Some(self.data[self.pos - 1])
+        } else {
+            None
+        }
+    }
+}
+pub fn sia(id: u16) -> ArrIter {
+    elog(id);
+    match plan::get(id) {
+        0 => ArrIter { data: [1, 2, 3, 4, 5, 6, 0, 0], pos: 0, len: 6 },
+        1 => ArrIter { data: [0; 8], pos: 0, len: 0 },
+        2 => ArrIter { data: [7, 0, 0, 0, 0, 0, 0, 0], pos: 0, len: 1 },
+        _ => ArrIter { data: [6, 5, 4, 3, 2, 1, 0, 0], pos: 0, len: 7 },
+    }
+}
+pub fn it_bag<I: Iterator<Item = u32>>(i: I) -> Bag<u32> {
+    i.collect()
 }
 
 /// Sources: their shape comes from the run-time plan (0, 1, 2 ...).
 pub fn so(id: u16) -> Option<u32> {
-    log::log(K::Eval, id, &[]);
+    elog(id);
     match plan::get(id) {
         0 => Some(3),
         1 => None,
@@ -42,7 +86,7 @@ pub fn so(id: u16) -> Option<u32> {
     }
 }
 pub fn sr(id: u16) -> Result<u32, u8> {
-    log::log(K::Eval, id, &[]);
+    elog(id);
     match plan::get(id) {
         0 => Ok(4),
         1 => Err(5),
@@ -60,7 +104,7 @@ pub fn si(id: u16) -> std::vec::IntoIter<u32> {
     .into_iter()
 }
 pub fn sp(id: u16) -> u32 {
-    log::log(K::Eval, id, &[]);
+    elog(id);
     match plan::get(id) {
         0 => 5,
         1 => 0,
@@ -94,14 +138,14 @@ pub fn is_big<const ID: u16>(v: &u32) -> bool {
     *v > 2
 }
 pub fn mk_inc(id: u16) -> impl Fn(u32) -> u32 + Copy + Send + 'static {
-    log::log(K::Eval, id, &[]);
+    elog(id);
     move |v| {
         z(id, &v);
         v.wrapping_add(2)
     }
 }
 pub fn mk_pred(id: u16) -> impl Fn(&u32) -> bool + Copy + Send + 'static {
-    log::log(K::Eval, id, &[]);
+    elog(id);
     move |v| {
         z(id, v);
         *v % 2 == 1
@@ -121,6 +165,20 @@ pub fn it_id<I: Iterator<Item = u32>>(i: I) -> I {
 }
 pub fn dbg<T: Debug>(t: T) -> String {
     format!("{:?}", t)
+}
+
+/// Thread-name probes (nested spawn macros inherit `<caller>_join_<i>` names).
+pub fn zt(id: u16) {
+    let n = std::thread::current().name().map(|s| s.to_owned()).unwrap_or_else(|| "<unnamed>".into());
+    log::log(K::Call, id, &enc64(fnv(n.as_bytes())));
+}
+pub fn zn(id: u16, name: &str) {
+    log::log(K::Call, id, &enc64(fnv(name.as_bytes())));
+}
+/// Drives a future of a plain value on its own current-thread runtime (async macro nested in a sync one).
+pub fn run_async_val<T, F: std::future::Future<Output = T>>(f: F) -> T {
+    let rt = tokio::runtime::Builder::new_current_thread().enable_time().build().expect("rt");
+    rt.block_on(f)
 }
 
 /// Runs an async twin on a tokio current-thread runtime (so that `tokio::spawn` works).
@@ -252,6 +310,15 @@ pub fn main(twins: &'static [Twin]) {
             runs += 1;
             events += (rl.len() + ml.len()) as u64;
             let mut msgs: Vec<String> = Vec::new();
+            if prop == "C19" {
+                if let Res::Val(s) = &rv {
+                    if s.contains("|allocs=") && !s.ends_with("|allocs=0") {
+                        // the user code of this twin allocates by itself: not a case for the allocation claim
+                        inconclusive.push(format!("twin {} plan {}: the reference itself allocates ({})", t.id, pstr, s.rsplit('|').next().unwrap_or("")));
+                        continue;
+                    }
+                }
+            }
             if let Res::Panic(m) = &rv {
                 // the reference itself panicked (e.g. arithmetic): generator defect, not a verdict
                 inconclusive.push(format!("twin {} plan {}: reference panicked: {}", t.id, pstr, m));
@@ -286,6 +353,7 @@ pub fn main(twins: &'static [Twin]) {
             }
             let ncalls = ml.iter().filter(|e| e.k == K::Call).count();
             let nt = match prop.as_str() {
+                "C17" | "C19" => true,
                 "C02" => ncalls >= 1,
                 "C11" => ml.iter().filter(|e| e.k == K::Cap).count() >= 1,
                 _ => ncalls >= 1,
@@ -294,7 +362,7 @@ pub fn main(twins: &'static [Twin]) {
                 nontrivial.insert(fnv(format!("{}|{}", t.id, pstr).as_bytes()));
             }
             for tag in t.tags.split(',') {
-                if tag.starts_with("op:") || tag.starts_with("w:") || tag.starts_with("sp:") {
+                if tag.starts_with("op:") || tag.starts_with("w:") || tag.starts_with("sp:") || tag.starts_with("big:") || tag.starts_with("nest:") || tag.starts_with("pair:") {
                     *cover.entry(tag.to_string()).or_insert(0) += 1;
                 }
             }
@@ -324,6 +392,11 @@ pub fn main(twins: &'static [Twin]) {
                 ]));
             }
         }
+    }
+    if prop == "C19" {
+        // monitor self-test: the counting allocator must see a deliberate allocation (if it is installed)
+        let (_, n) = crate::alloc::measure(|| std::hint::black_box(vec![1u8; 64]).len());
+        cover.insert("control_allocations_counted".into(), n as u64);
     }
     let cover_s = format!("{{{}}}", cover.iter().map(|(k, v)| format!("{}:{}", esc(k), v)).collect::<Vec<_>>().join(","));
     let rep = obj(&[
